@@ -79,6 +79,8 @@ var forgedValues = []string{
 	"a proto=b proto=c;d",
 	// addresses that textually end in / contain a peer address of the universe (1.2.3.4, 10.0.0.7, ::1, 2001:db8::1)
 	"11.2.3.4", "9.9.9.9, 210.0.0.7", "2001:db8::1", "1.2.3.4", "7.7.7.7, ::1",
+	// a long chain of earlier hops
+	"10.1.0.1, 10.1.0.2, 10.1.0.3, 10.1.0.4, 10.1.0.5, 10.1.0.6, 10.1.0.7, 10.1.0.8, 10.1.0.9, 10.1.0.10, 10.1.0.11, 10.1.0.12, 10.1.0.13, 10.1.0.14, 10.1.0.15, 10.1.0.16, 10.1.0.17, 10.1.0.18, 10.1.0.19, 10.1.0.20, 10.1.0.21, 10.1.0.22, 10.1.0.23, 10.1.0.24, 2001:db8:0:0:0:0:0:1",
 }
 
 // caseVariant renders a header name in one of several casings.
@@ -164,6 +166,12 @@ func genWire(r *hx.Rand, c cfgIn, values []string, extraNames []string) []wireHd
 		}
 		w = append(w, wireHdr{k, sp(r.Pick(values))})
 		if r.Chance(1, 5) { // repeat the same name in another casing
+			w = append(w, wireHdr{caseVariant(r, k), sp(r.Pick(values))})
+		}
+	}
+	if r.Chance(1, 25) { // many lines of one name (5-12), every casing: order and count must survive
+		k := r.Pick(names)
+		for m := 5 + r.Intn(8); m > 0; m-- {
 			w = append(w, wireHdr{caseVariant(r, k), sp(r.Pick(values))})
 		}
 	}
